@@ -714,9 +714,10 @@ func C14(run *report.Run) {
 		run.Extra["golden_roots_compared"] = nroots
 		run.Extra["golden_layer_rows_compared"] = len(g.Layers)
 	}
-	acc.flush(run)
 	run.Evals = evals
-	run.Distinct = evals
+	c14Legacy(run, acc)
+	acc.flush(run)
+	run.Distinct = run.Evals
 	run.Extra["store_calls_hashed_independently"] = stores
 	keys := make([]string, 0, len(obs.Layers))
 	for k := range obs.Layers {
